@@ -53,3 +53,15 @@ def correspondence(rng, tier):
             key = (m, p, n, dx, c, tuple(f)) if any(f) else None
             cs.add(term, {'method': m, 'pad_mode': p, 'f': f, 'dx': dx, 'pad_const': c}, key)
     return [cs]
+
+LEVEL_TEXT = ('Proof: for the tables regenerated from finite_diff on every run, Coq proves for EVERY array length '
+              '(short axes included), every entry and pad constant that each (method, base padding) pair equals the '
+              'textbook stencil on the extended array / dx, and that for all 30 (method, padding) pairs the operator '
+              'named by _ADJ_METHOD/_ADJ_PADDING is exactly minus the transpose (<Df,g> = -<f,D\'g> for all f,g). '
+              'order2 x forward/backward is proved to violate the literal statement (recorded finding) and what it '
+              'computes instead is proved. The interpreter is tied to the code by an exact correspondence on all '
+              'modes x sizes 2..7.')
+LEVEL_NOTE = ('Trusted: the translator (fail-closed, small grammar), the hand-written interpreter of sequential '
+              'out[k] = / += / -= statements (validated by the correspondence incl. aliasing on sizes 2-4), NumPy '
+              'slicing; exact arithmetic (rounding out of scope). Axioms: classical reals + funext as printed.')
+TECHNIQUE = 'Coq proof by list induction (summation by parts) over source-regenerated tables + in-Coq differential correspondence'
